@@ -45,9 +45,9 @@ struct CoutCapture {
 // ================================================================================================
 // C17: shot programs
 // ================================================================================================
-enum SegKind { S_LOCAL = 0, S_LOOP, S_HELPER, S_ARRAY, S_OBJ1, S_OBJ2, S_BLOCK, S_ECHO, S_UNTRACKED, S_CYCLE_OWNER, S_COUNT };
+enum SegKind { S_LOCAL = 0, S_LOOP, S_HELPER, S_ARRAY, S_OBJ1, S_OBJ2, S_BLOCK, S_ECHO, S_UNTRACKED, S_CYCLE_OWNER, S_COND, S_COUNT };
 const char* segName(int k) {
-    static const char* n[] = {"tracked_local", "tracked_in_loop", "tracked_in_helper", "tracked_array", "object_tracked_field", "object_tracked_array_field", "tracked_in_block", "echo", "untracked_qubit", "tracked_owner_held_by_garbage_cycle"};
+    static const char* n[] = {"tracked_local", "tracked_in_loop", "tracked_in_helper", "tracked_array", "object_tracked_field", "object_tracked_array_field", "tracked_in_block", "echo", "untracked_qubit", "tracked_owner_held_by_garbage_cycle", "tracked_in_measurement_dependent_scope"};
     return k >= 0 && k < S_COUNT ? n[k] : "?";
 }
 struct Seg {
@@ -130,6 +130,7 @@ std::string renderShot(const ShotPlan& p) {
                 if (g.meas == 1) body += "measure " + v + "; ";
                 else if (g.meas == 2) body += "measure " + v + "[0]; ";
                 else if (g.meas == 3) body += "measure " + v + "[1]; measure " + v + "[0]; ";
+                else if (g.meas == 4) body += "measure " + v + "[1]; ";
                 body += "\n";
                 break;
             }
@@ -153,6 +154,10 @@ std::string renderShot(const ShotPlan& p) {
                 }
                 break;
             case S_ECHO: body += "    echo(\"e" + id + "\");\n"; break;
+            case S_COND:
+                // the tracked declaration is reached only when a measured bit is 1: a shot may record nothing at all
+                body += "    qubit g" + id + "; h(g" + id + "); bit c" + id + " = measure g" + id + "; if (c" + id + ") { @tracked qubit k" + id + "; " + localBody("k" + id) + "}\n";
+                break;
             case S_CYCLE_OWNER:
                 // two nodes in a reference cycle each own a T1; the cycle is dropped, so the owners die when the
                 // collector reclaims it (at the latest in the collection that ends the run). meas==1: the first
@@ -179,6 +184,7 @@ ShotPlan genShot(sim::Rng& g) {
         s.prep = (int)g.below(4);
         s.meas = (int)g.below(4);
         s.reps = 1;
+        if (s.kind == S_ARRAY && g.chance(0.25)) s.meas = 4;
         if (s.kind == S_LOOP || s.kind == S_HELPER) s.reps = g.range(1, 3);
         if (s.kind == S_OBJ1 || s.kind == S_OBJ2) { s.reps = g.range(1, 3); s.viaDestroy = g.chance(0.4); if (s.meas > 2) s.meas = 1; }
         if (s.kind == S_CYCLE_OWNER) {
@@ -197,6 +203,13 @@ ShotPlan genShot(sim::Rng& g) {
         p.segs.push_back(s);
     }
     if (p.segs.empty()) { Seg s; s.kind = S_LOCAL; s.prep = 2; s.meas = 1; p.segs.push_back(s); }
+    if (g.chance(0.06)) {   // only measurement-dependent tracked scopes (plus echoes): some shots record nothing
+        std::vector<Seg> only;
+        for (auto& s : p.segs) if (s.kind == S_COND || s.kind == S_ECHO || s.kind == S_UNTRACKED) only.push_back(s);
+        Seg c; c.kind = S_COND; c.prep = (int)g.below(4); c.meas = (int)g.below(3);
+        only.push_back(c);
+        p.segs = only;
+    }
     static const int shotChoices[] = {1, 2, 3, 17};
     int cfg = (int)g.below(4);
     if (cfg == 0 || cfg == 2) p.annShots = shotChoices[g.below(4)];
@@ -267,6 +280,8 @@ void modelShot(const ShotPlan& p, int shot, Table& tab, std::vector<std::string>
                         int b = measureOne(prep, -1);
                         int a = measureOne(prep, g.prep == 4 ? b : -1);
                         out = std::to_string(a) + std::to_string(b);
+                    } else if (g.meas == 4) {
+                        (void)measureOne(prep, -1);   // only the element with the higher index is measured: still '?'
                     }
                     tab[g.kind == S_ARRAY ? "qubit[] a" + id : std::string("T2.qs")][out]++;
                 }
@@ -280,6 +295,11 @@ void modelShot(const ShotPlan& p, int shot, Table& tab, std::vector<std::string>
                 }
                 break;
             case S_ECHO: echoes.push_back("e" + id); break;
+            case S_COND: {
+                int c = measureOne(2, -1);
+                if (c) tab["qubit k" + id][local(g)]++;
+                break;
+            }
             case S_CYCLE_OWNER:
                 for (int r = 0; r < g.reps; ++r) {
                     std::string out = "?";
@@ -326,6 +346,11 @@ void cliObserver(runtime::RuntimeEvaluator* ev, void* stmt, uint64_t, bool) {
         }
         for (int k = 0; k < n && g_cs.bi < g_cs.bits.size(); ++k) g_rng.stage64(g_cs.bits[g_cs.bi++] ? 0ull : ~0ull);
         ++g_cs.measureStmts;
+    } else if (auto* vd = dynamic_cast<compiler::VariableDeclaration*>(st)) {
+        if (vd->initializer && dynamic_cast<compiler::MeasureExpression*>(vd->initializer.get()) && g_cs.bi < g_cs.bits.size()) {
+            g_rng.stage64(g_cs.bits[g_cs.bi++] ? 0ull : ~0ull);
+            ++g_cs.measureStmts;
+        }
     }
 }
 
@@ -659,6 +684,10 @@ std::string isoProgram(int mask) {
     s += "class Box<T> { public T v; public constructor(T v) -> Box<T> { this.v = v; return this; } public function get() -> T { return this.v; } }\n";
     s += "class Cnt { public static int made = 0; public int id; public constructor() -> Cnt { Cnt.made = Cnt.made + 1; this.id = Cnt.made; return this; } }\n";
     s += "function cycle() -> void { Link a = new Link(); Link b = new Link(); a.next = b; b.next = a; }\n";
+    s += "class Shape { public constructor() -> Shape = default; }\nclass Circle extends Shape { public constructor() -> Circle { super(); return this; } }\n";
+    s += "class Label { public string what; public constructor(Shape s) -> Label { this.what = \"generic shape\"; return this; } public constructor(Circle c) -> Label { this.what = \"circle\"; return this; } }\n";
+    s += "function mkLabel(Shape s) -> Label { return new Label(s); }\n";
+    s += "function rec(int n) -> int { if (n == 0) { int[] xs = {1}; return xs[5]; } return rec(n - 1) + 1; }\n";
     s += "function main() -> void {\n";
     s += "    Stats.runs = Stats.runs + 1;\n    echo(\"runs=\" + Stats.runs);\n";
     if (mask & 1) s += "    echo(0.25f);\n    echo(2.0f);\n    echo(\"ratio=\" + 0.75f);\n    Stats.acc = Stats.acc + 0.25f;\n    echo(Stats.acc);\n";
@@ -670,6 +699,8 @@ std::string isoProgram(int mask) {
         s += "    Probe pr = new Probe();\n    h(pr.q);\n    bit pb = measure pr.q;\n    echo(pb);\n    destroy pr;\n    echo(\"rel2=\" + Stats.released);\n";
     }
     if (mask & 16) s += "    @tracked qubit t;\n    h(t);\n    measure t;\n    reset t;\n    x(t);\n    bit tb = measure t;\n    echo(tb);\n    @tracked qubit[2] tr;\n    h(tr[0]);\n    cx(tr[0], tr[1]);\n    measure tr;\n";
+    if (mask & 64) s += "    echo(mkLabel(new Circle()).what);\n    echo(mkLabel(new Shape()).what);\n";
+    if (mask & 128) s += "    echo(\"deep\");\n    echo(rec(" + std::to_string(300 + 50 * ((mask >> 8) & 3)) + "));\n";
     if (mask & 32) s += "    Cnt c1 = new Cnt();\n    Cnt c2 = new Cnt();\n    echo(c2.id);\n    echo(Cnt.made);\n";
     s += "    echo(\"made=\" + Cnt.made);\n    echo(\"rel3=\" + Stats.released);\n}\n";
     return s;
@@ -858,7 +889,7 @@ IsoPlan genIso(uint64_t seed, uint64_t run) {
         go.guardViolationProb = knob.chance(0.2) ? 0.1 : 0.0;
         p.qp = qh::generate(g, go);
     } else if (p.family == 3) { p.variantMask = (int)knob.below(3); p.K = 5; }
-    else p.variantMask = 1 + (int)knob.below(63);
+    else p.variantMask = 1 + (int)knob.below(1023);
     return p;
 }
 
@@ -973,7 +1004,7 @@ void runOne(const sim::Options& opt, uint64_t run, sim::RunReport& rep) {
         std::function<bool(const std::vector<classprog::Stmt>&)> f = [&](const std::vector<classprog::Stmt>& m) { IsoPlan c = cur; c.cp.main = m; if (failsWith(c)) { cur = c; return true; } return false; };
         sim::ddmin<classprog::Stmt>(cur.cp.main, f, budget);
     } else if (cur.family == 2) {
-        for (int b = 0; b < 6; ++b) { IsoPlan c = cur; c.variantMask &= ~(1 << b); if (c.variantMask != cur.variantMask && failsWith(c)) cur = c; }
+        for (int b = 0; b < 10; ++b) { IsoPlan c = cur; c.variantMask &= ~(1 << b); if (c.variantMask != cur.variantMask && failsWith(c)) cur = c; }
     }
     while (cur.K > 2) { IsoPlan c = cur; c.K = cur.K - 1; if (failsWith(c)) cur = c; else break; }
     if (cur.reanalyse) { IsoPlan c = cur; c.reanalyse = false; if (failsWith(c)) cur = c; }
